@@ -890,6 +890,9 @@ func (runInfo *runInfoStruct) runDeleteStmt(stmt *ast.DeleteStmt) {
 	if item.Kind() == reflect.Interface && !item.IsNil() {
 		item = item.Elem()
 	}
+	if stmt.Key != nil && runInfo.rv.Kind() == reflect.Interface && !runInfo.rv.IsNil() {
+		runInfo.rv = runInfo.rv.Elem()
+	}
 
 	switch item.Kind() {
 	case reflect.String:
